@@ -19,7 +19,7 @@ pub fn def() -> CheckDef {
         gen,
         run,
         rule: "seeded interleavings of 2-4 stream handles (each on a different stream: the 'clients') with structural mutations of OTHER entries (create / remove / overwrite / resize across the cutoff), small sibling sets (<= 12) so that removals of nodes with two children whose in-order predecessor has an open handle, root removals and slot reuse occur. After every step: full API dump vs model and independent image check (so a write landing in a freed slot is seen even if the API hides it); at the end every handle is flushed and read back through a fresh handle and after reopen. Non-trivial: >= 1 successful mutation with a handle open; distinct = distinct (seam log, final image) hash.",
-        assumptions: &["two handles on one stream, and using a handle after its stream was removed/overwritten, are outside the statement and never generated", "reference model as C01"],
+        assumptions: &["two handles on one stream are outside the statement and never generated; a handle used after its own stream was removed (every tenth case, src/stale.rs) is judged only for what it does to OTHER objects, and not at all for a new stream that took over its directory slot", "reference model as C01"],
         cpu_limit_s: 300,
         fault_kinds: "none (interleaving of handle clients with mutators)",
         count_subruns: false,
@@ -41,6 +41,15 @@ pub fn flags() -> Flags {
 
 pub fn gen(seed: u64, idx: u64, _tier: Tier) -> Case {
     let mut rng = Rng::for_case(seed, "C07", idx);
+    if idx % 10 == 5 {
+        // a handle whose own stream was removed (src/stale.rs): whatever calls through it
+        // return, the other objects keep their content
+        let version = if rng.chance(1, 2) { 3 } else { 4 };
+        let mut c = Case::new("C07", "stale-handle", version);
+        c.bufsize = *rng.pick(gen::BUFSIZES);
+        c.ops = crate::stale::gen_ops(&mut rng);
+        return c;
+    }
     let k = Knobs { max_ops: 40, near_miss: &[0, 3], pool: (4, 12), max_objects: 16, big_one_in: 10, spellings: &[0], case_variants: &[0, 10], set_len_shrink_only: true, ..DEFAULT_KNOBS };
     let mut w = common::join_weights(
         vec![("create_storage", 4), ("remove_storage", 4), ("remove_stream", 10), ("write_whole", 12), ("create_new_stream", 3), ("remove_storage_all", 1), ("set_state_bits", 1)],
@@ -60,6 +69,9 @@ pub fn gen(seed: u64, idx: u64, _tier: Tier) -> Case {
 }
 
 pub fn run(case: &Case, known: &BTreeSet<String>) -> Outcome {
+    if case.mode == "stale-handle" {
+        return crate::stale::run(case, crate::stale::Judge { property: "C07", image: false, bystanders: true });
+    }
     let mut o = runner::run_history(case, &flags(), known);
     let with_handle = case.ops.iter().any(|op| matches!(op, crate::ops::Op::HOpen { .. } | crate::ops::Op::HCreate { .. } | crate::ops::Op::HCreateNew { .. }));
     o.stats.nontrivial = o.stats.nontrivial && with_handle;
